@@ -1,11 +1,14 @@
 SPECIFICATION Spec
 VIEW View
 CONSTANTS
-    Sections <- QSections
+    Sections <- TheSections
+    U = "q"
     PreReg <- PreModx
     DefTarget <- NoDefaults
     Bug <- NoBug
-    MaxReloads = 3
+    MaxReloads = 9
+    WithEmit = TRUE
     SampleK = 1
-INVARIANTS TypeOK RoutingIsDeclarative RoutingIsContract EmitWrites RefcountsExact HooksInstalled TreeIsSection SyntaxAgrees
+    SampleR = 0
+INVARIANTS TypeOK RoutingIsDeclarative RoutingIsContract EmitWrites RefcountsExact HooksInstalled TreeIsSection
 ACTION_CONSTRAINT EmitBehaviour
